@@ -121,6 +121,7 @@ type worldOpts struct {
 	ns, domain     string
 	fetchTimeout   time.Duration
 	noHandshake    bool // do not answer the start-up subscriptions (caller drives them)
+	dumpPath       string
 }
 
 type world struct {
@@ -153,7 +154,12 @@ func newWorld(o worldOpts) (*world, error) {
 	}
 	ch := make(chan res, 1)
 	go func() {
-		m, err := manager.NewXDSResourceManagerWithADS(bc, w.ads, manager.Option{F: func(op *manager.Options) { op.XDSSvrConfig = svr }})
+		m, err := manager.NewXDSResourceManagerWithADS(bc, w.ads, manager.Option{F: func(op *manager.Options) {
+			op.XDSSvrConfig = svr
+			if o.dumpPath != "" {
+				op.DumpPath = o.dumpPath
+			}
+		}})
 		ch <- res{m, err}
 	}()
 	if !o.noHandshake {
